@@ -235,21 +235,49 @@ def run_case(case):
     # or sign-flipped force is >= 1e-3 eV/A
     tolF = 1e4 * (eps_eff + EPS_REF) * A + 1e-9
     tolE = 100 * (eps_eff + EPS_REF) * A + 1e-9  # C04's 20 eps_eff A, same x5 allowance (SP2 at its 1e-7 floor: 6.7 eps_eff seen)
+    # The independent evaluation is a cold start, so it may land on ANOTHER self-consistent solution than the warm-started
+    # run (seen: MNDO PH3, cold Pulay converges, flagged converged, to a state 37 eV above the one every other solver and
+    # the optimiser find).  That is C03/C04 territory, not a stale force: a row passes when the recorded (E, F) equal those
+    # of SOME cold-started solver at the recorded x_i; the alternates are only run for rows the first one does not match.
+    def cold_solvers():
+        yield "pulay", run.settings(case["method"], eps=EPS_REF, converger=(2,), grad=case["grad"])
+        yield "adaptive", run.settings(case["method"], eps=EPS_REF, converger=(1,), grad=case["grad"])
+        yield "mix0.3", run.settings(case["method"], eps=EPS_REF, converger=(0, 0.3), grad=case["grad"])
+
     for i in idx:
-        sp = run.single_point(S, rec[i]["xb"], _settings(case, cold=True), charges=ch, mult=1)
-        if sp["notconverged"] is not None and bool(np.any(sp["notconverged"])):
+        best = [(float("inf"), float("inf"), None)] * nmol
+        ran = 0
+        for sname, sett in cold_solvers():
+            if all(bf <= tolF and be <= tolE for bf, be, _ in best):
+                break
+            sp = run.single_point(S, rec[i]["xb"], sett, charges=ch, mult=1)
+            ran += 1
+            ncv = sp["notconverged"]
+            for k in range(nmol):
+                if ncv is not None and bool(np.asarray(ncv).reshape(-1)[k]):
+                    continue
+                dFk = float(np.abs(sp["force"][k] - rec[i]["F"][k])[real[k]].max())
+                dEk = float(abs(sp["Etot"].reshape(-1)[k] - rec[i]["E"][k]))
+                if max(dFk / tolF, dEk / tolE) < max(best[k][0] / tolF, best[k][1] / tolE):
+                    best[k] = (dFk, dEk, sname)
+        if ran > 1:
+            count("independent_alternate_cold_solver_runs", ran - 1)
+        if any(bs is None for _, _, bs in best):
             count("independent_single_point_not_converged")
             continue
         count("independent_single_points")
-        dF = float(np.abs(sp["force"] - rec[i]["F"])[real].max())
-        dE = float(np.abs(sp["Etot"].reshape(-1) - rec[i]["E"]).max())
+        if any(bs != "pulay" for _, _, bs in best):
+            count("cold_pulay_found_another_scf_solution")
+        dF = max(bf for bf, _, _ in best)
+        dE = max(be for _, be, _ in best)
         if margin("force_vs_independent_single_point", dF, tolF):
             violate("force-is-that-of-the-recorded-geometry", evaluation=i + 1, max_diff=dF, bound=tolF,
-                    max_force=float(np.abs(rec[i]["F"]).max()),
+                    max_force=float(np.abs(rec[i]["F"]).max()), matched_solver=[bs for _, _, bs in best],
                     vs_previous_geometry=None if i == 0 else float(np.abs(
                         run.single_point(S, rec[i - 1]["xb"], _settings(case, cold=True), charges=ch, mult=1)["force"] - rec[i]["F"])[real].max()))
         if margin("energy_vs_independent_single_point", dE, tolE):
-            violate("energy-is-that-of-the-recorded-geometry", evaluation=i + 1, max_diff=dE, bound=tolE)
+            violate("energy-is-that-of-the-recorded-geometry", evaluation=i + 1, max_diff=dE, bound=tolE,
+                    matched_solver=[bs for _, _, bs in best])
     # ---- descent ------------------------------------------------------------------------------------------
     E = np.array([r["E"] for r in rec])  # [n, nmol]
     if alpha <= ALPHA_DESCENT and n >= 2:
